@@ -12,8 +12,10 @@ the start station's point, the end point is appended only under dist(end,last) >
 never force-closed; last_index is count-2 on a closed curve (the duplicated closing vertex is never emitted twice) and count-1
 otherwise; (TERM) every cycle of the vertex walk either advances to at_vertex(index+1) under index+1 <= last_index or clears the
 one-shot wrap flag under wrap; between_lengths_by_control returns None beyond the curve and calls between with (min,max) resp.
-(max,min) of the SAME a,b under the stated conditions; reversed reverses the points once with the same tolerance."""
-NOT_DECIDED = "the vertex walk's correctness for stations exactly on vertices / the seam / the last edge, length conservation, chains of portioning (value-level)"
+(max,min) of the SAME a,b under the stated conditions; reversed reverses the points once with the same tolerance.
+(GUARD) the walk of between_lengths has exactly two ways out: past last_index, or at-or-before the end station (<=) with the next vertex beyond its
+edge; the stations it is cut at come from at_length (rules shared with C01: exact vertex hit = that vertex, else the segment before the insertion point)."""
+NOT_DECIDED = "that the walk's stop conditions are the right ones for stations exactly on vertices / the seam / the last edge (they are pinned as found), length conservation, chains of portioning (value-level)"
 ASSUMPTIONS = ["at_vertex(k) reports index k for every k below the last vertex (C01), so `index + 1` strictly increases along the walk"]
 
 C = 'geom2::curve2::Curve2'
